@@ -146,17 +146,28 @@ def genHistory (len : Nat) (period : Nat) (onlyValid : Bool) : Gen History := do
   let mut ops : List MuxOp := []
   let mut pids : List Nat := []
   let mut auto := 0x100
+  if (← chance 1 3) then
+    -- two explicit streams exactly where automatic assignment starts, then an automatic one: it has to step over both
+    ops := ops ++ [.add { elementaryPID := 0x100, streamType := 0x1b }, .add { elementaryPID := 0x101, streamType := 0x0f },
+                   .add { elementaryPID := 0, streamType := 0x06 }]
+    pids := [0x100, 0x101, 0x102]
+    auto := 0x103
   let n0 ← randRange 1 3
   for _ in [0:n0] do
     let explicit ← randBool
-    let pid ← (if explicit then randRange 0x200 0x20f else pure 0)
+    -- explicit PIDs also in the range automatic assignment starts from (0x100..0x103), so that it has to step over several
+    let pid ← (if explicit then (do if (← chance 1 3) then randRange 0x100 0x103 else randRange 0x200 0x20f) else pure 0)
     if explicit && pids.contains pid then continue
     let es ← genES pid (← chance 1 3)
     ops := ops ++ [.add es]
     if explicit then pids := pids ++ [pid]
     else
-      pids := pids ++ [auto]
-      auto := auto + 1
+      -- what the muxer will assign: the next PID from `auto` on that is not in use
+      let mut a := auto
+      for _ in [0:40] do
+        if pids.contains a then a := a + 1
+      pids := pids ++ [a]
+      auto := a + 1
   ops := ops ++ [.setPCR (pids.headD 0x100)]
   let mut pcr := pids.headD 0x100
   for _ in [0:len] do
@@ -167,17 +178,32 @@ def genHistory (len : Nat) (period : Nat) (onlyValid : Bool) : Gen History := do
       let wantAF ← chance 1 2
       let d ← genData pid wantAF (if onlyValid then 100 else 176) (← chance 1 25)
       ops := ops ++ [.data d]
-    else if k = 12 then ops := ops ++ [.tables]
+    else if k = 12 then
+      if (← chance 1 2) || pids.isEmpty then ops := ops ++ [.tables]
+      else
+        -- the adaptation field and the PES header exactly fill the first packet (no payload byte in it), one byte less, one more
+        let pid ← pick pids
+        let d ← genData pid false
+        let hdrLen := 6 + calcPESOptionalHeaderLength d.pes.header.optionalHeader
+        let delta ← pick [0, 1, 2]
+        let n := 181 - hdrLen - delta + 1
+        let priv ← randBytes n
+        let af : PacketAdaptationField := { hasTransportPrivateData := true, transportPrivateData := priv, transportPrivateDataLength := n }
+        let payload ← randBytes (← randRange 1 400)
+        ops := ops ++ [.data { d with adaptationField := some af, pes := { d.pes with data := payload } }]
     else if k = 13 then
-      let pid ← (do if (← chance 1 2) then randRange 0x200 0x20f else pure 0)
+      let pid ← (do let c ← randBelow 4; if c = 0 then pure 0 else if c = 1 then randRange 0x100 0x105 else randRange 0x200 0x20f)
       if pid != 0 && pids.contains pid then
         if !onlyValid then ops := ops ++ [.add { elementaryPID := pid, streamType := 0x1b }]
       else
         let es ← genES pid (← chance 1 4)
         ops := ops ++ [.add es]
         if pid = 0 then
-          pids := pids ++ [auto]
-          auto := auto + 1
+          let mut a := auto
+          for _ in [0:40] do
+            if pids.contains a then a := a + 1
+          pids := pids ++ [a]
+          auto := a + 1
         else pids := pids ++ [pid]
     else if k = 14 then
       if pids.length > 1 then
